@@ -3509,6 +3509,9 @@ impl ToBitStream for Cuesheet {
                 tracks,
                 lead_out,
             } => {
+                if catalog_number.len() > Self::CATALOG_LEN {
+                    return Err(CuesheetError::InvalidCatalogNumber.into());
+                }
                 w.write_from({
                     let mut number = [0; Self::CATALOG_LEN];
                     number
